@@ -419,6 +419,14 @@ pub fn run_supply_check(check: &str, tier: Tier, seed: u64, index: u64, scratch:
             t.in_place = true;
             t.fixed_mtime = er.chance(2, 3);
         }
+        {
+            // (own stream: the draws above stay what they were)
+            let mut br = Rng::stream(seed, "mtime-backwards");
+            if br.chance(1, 8) && t.via_symlink.is_none() {
+                t.mtime_backwards = true;
+                t.in_place = br.chance(1, 2) || t.in_place;
+            }
+        }
         // the caller may ask for a named summary (the parameter the recursion uses for delegated levels)
         if check != "C15" && er.chance(1, 4) {
             t.step_name = Some(gen::simple_name(&mut er));
